@@ -165,6 +165,16 @@ def keysets(ctx, nshaped, nsmall, big=False, huge=False):
     out = list(gen.shaped_sets(ctx.rng, nshaped, big=big))
     if huge or (ctx.scale_on and big):
         out.append(gen.huge_set(ctx.rng))
+        if ctx.pid in ('C01', 'C17'):
+            # > 65536 units: node positions that differ by a multiple of 2^16 (the cell width of the 16-bit DAC); only
+            # where the battery is light -- the list-based model needs minutes per save/load of such a dictionary
+            az = bytes(range(97, 123))
+            out.append(('huge16-100k', sorted(set(gen.rand_word(ctx.rng, az, 4, 10) for _ in range(60000)))))
+            # dense fan-out: every two-byte key over 1..255 (65025 keys) plus some longer ones -- the children of the last
+            # root children are placed beyond unit 65536, an exact multiple of 2^16 away from their parents
+            dense = [bytes([x, y]) for x in range(1, 256) for y in range(1, 256)]
+            dense += [bytes([x, 7, 9, x]) for x in range(1, 256)] + [bytes([x, 200, 3]) for x in range(1, 256, 2)]
+            out.append(('huge16-dense2', sorted(set(dense))))
 
     alphas = [[97, 98], [0, 97], [97, 255], [0, 255]]
     for a in alphas:
@@ -192,6 +202,8 @@ def trie_cases(ctx, sets, make_ops, containers='svcw', variants=gen.VARIANTS, bi
         v = variants[i % len(variants)]; b = bins[(i // 4) % len(bins)]; cont = containers[(i // 8) % len(containers)]
         if desc.startswith('huge') and 15 in variants:
             v = 15 if n % 2 == 0 else 16          # > 32768 units: the second DAC level of the 15/16-bit variants
+        if desc.startswith('huge16') and 16 in variants:
+            v = 16
         i += 1
         if desc.startswith('windows') and 'w' in containers: cont = 'w'     # keys handed over as aliasing windows of one buffer
         cases.append(gen.trie_case('%s%d-%s' % (tag, n, desc), v, b, cont, K, make_ops(K), {'desc': desc}))
@@ -312,6 +324,8 @@ def j_c06(hdr, keys, ops, lines, case):
         if l.startswith('use ') and l != 'use ok':
             V.append(('C06', 'load/mmap of the saved file -> %s' % l))
     for l in lines:
+        if l.startswith('pipeload ') and l != 'pipeload same':
+            V.append(('C06', 'loading the saved bytes through a pipe (a source that cannot seek) -> %s' % l))
         if l.startswith('saveover ') and l.split()[1].startswith('ret:'):
             d = dict(x.split(':') for x in l.split()[1:])
             if d.get('ret') != d.get('size') or d.get('same') != '1':
@@ -324,7 +338,7 @@ def run_c06(ctx):
     sets = keysets(ctx, ctx.scale(40, 250), ctx.scale(6, 60), big=True, huge=(ctx.tier == 'thorough'))
     def ops(K):
         bat = gen.battery(K, ctx.rng, ctx.scale(12, 40)) + gen.id_ops(K)[:12] + ['E']
-        o = ['STATS', 'FILE', 'TID', 'SAVEOVER %d' % ctx.rng.choice([1, 7, 512, 5000])] + bat
+        o = ['STATS', 'FILE', 'TID', 'SAVEOVER %d' % ctx.rng.choice([1, 7, 512, 5000]), 'PIPELOAD'] + bat
         o += ['USE load', 'STATS', 'FILE', 'SAVEOVER 100'] + bat
         for off in ([ctx.rng.choice([0, 8]), ctx.rng.choice([1, 3, 4, 7, 4095])] if ctx.tier == 'quick' else [0, 1, 3, 4, 7, 9, 4095]):
             o += ['USE mmap %d' % off, 'STATS', 'FILE'] + bat
@@ -511,6 +525,8 @@ def hist_ops(ctx, K, n):
             ops.append('L ' + hexs(rng.choice(Q)))
         elif r < 0.90:
             ops.append('DI %d %d' % (rng.randrange(2), rng.randrange(len(K) + 2)))
+        elif r < 0.92:
+            ops.append('RELOADHERE')          # the dictionary object is assigned its own reloaded save; iterators stay bound
         elif r < 0.94:
             ops.append('MV'); live = {}
         elif r < 0.97:
